@@ -225,7 +225,7 @@ func (s *session) opPut(c *certs.FinalityCertificate, budget int) string {
 		select {
 		case err := <-done:
 			return err
-		case <-time.After(time.Second):
+		case <-time.After(20 * time.Second): // a blocked writer blocks for good; a loaded machine only makes Put slow
 			blockedWriters++
 			return errors.New("writer blocked")
 		}
